@@ -79,3 +79,25 @@ func EncPair() (a, b *state.EncryptionSession, err error) {
 	b.InitCleanup()
 	return a, b, nil
 }
+
+// KeyExchangeAsHello sets up new keys the way a hello exchange does: the
+// initiator builds a fresh encryption session and installs it when the
+// exchange completes, the responder re-keys the encryption session it has.
+func KeyExchangeAsHello(client, server *state.Session) error {
+	enc := state.NewEncryptionSession()
+	kx, kxt, err := enc.InitKeyClientStart()
+	if err != nil {
+		return fmt.Errorf("client start: %w", err)
+	}
+	rkx, rkxt, err := server.Encryption().InitKeyServer(kx, kxt)
+	if err != nil {
+		return fmt.Errorf("server: %w", err)
+	}
+	if err := enc.InitKeyClientComplete(rkx, rkxt); err != nil {
+		return fmt.Errorf("client complete: %w", err)
+	}
+	enc.InitCleanup()
+	server.Encryption().InitCleanup()
+	client.SetEncryptionSession(enc)
+	return nil
+}
